@@ -310,15 +310,16 @@ def run_scenario(ctx, scenario, case, workdir):
             continue
         # (all the routes to the standard palette give one and the same look; the custom palettes have their own)
         look = req['via'] if req['via'].startswith('custom_palette') else 'standard palette'
+        # (a format that gives only the limits keeps the columns of the moment: the whole format is the key)
         same = by_req.setdefault((req['obj'], req['conf'], req['no_color'], look,
-                                  req.get('set_fmt'), tuple(req.get('removed') or ())),
+                                  req.get('ref_fmt') or req.get('set_fmt'), tuple(req.get('removed') or ())),
                                  (out, req['mode'], idx, req['via']))
         if same[0] != out:
             problems.append(("line-iteration-differs-from-whole-text" if same[3] == req['via'] else
                              "rendering-depends-on-how-the-palette-was-given",
                              dict(where, other_request=same[2], other_mode=same[1], other_via=same[3])))
             continue
-        okey = (req['obj'], req['conf'], req.get('set_fmt'), tuple(req.get('removed') or ()))
+        okey = (req['obj'], req['conf'], req.get('ref_fmt') or req.get('set_fmt'), tuple(req.get('removed') or ()))
         other = first.get(okey)
         if other is None:
             first[okey] = (req['no_color'], stripped, idx)
